@@ -38,11 +38,14 @@ func vpFSMaxLength(s *sessions.FilesystemStore, l int) { vpFSMax = l }
 func vpTempDir() string                                 { return "/tmp" }
 
 //vp:property C18
-//vp:bounds host list of 0..2 entries
+//vp:bounds host list of 0..2 entries; the empty list either absent (nil) or present but empty (what `Hosts: []` in the configuration file decodes to)
 //vp:reach refused built
 func VP_C18_handler() {
 	n := vpIntRange("nhosts", 0, 2)
 	var hosts []string
+	if n == 0 && vpBool("empty-list-is-present") {
+		hosts = []string{}
+	}
 	for i := 0; i < n; i++ {
 		hosts = append(hosts, "h"+vpItoa(i))
 	}
